@@ -31,6 +31,7 @@ import (
 	"fmt"
 	"os"
 	"math"
+	"math/big"
 	"sort"
 	"strconv"
 	"strings"
@@ -56,6 +57,10 @@ var c06NoAux = os.Getenv("VERIF_C06_NOAUX") != ""
 // the retry schedule, so that a missing retry shows up as the stale read it causes.
 var c06NoLog = os.Getenv("VERIF_C06_NOLOG") != ""
 
+// c06FlightStuck: a read was found blocked for good in sqlc's process-wide
+// single-flight group (reported as a failure); later cases are not judged.
+var c06FlightStuck bool
+
 const (
 	c06MaxInjected = 5 // per node and case: keeps the redis client's circuit breaker closed (protection = 5)
 	c06NIDs        = 6
@@ -69,8 +74,11 @@ type hOp struct {
 	During bool     `json:"du,omitempty"` // write/delrow: a cached read of the row inside the exec callback, before the DB changes
 	NoIdx  bool     `json:"ni,omitempty"` // write that keeps the index value: do not name the index key
 	In     int      `json:"in,omitempty"` // which of the case's cache instances performs the operation
-	Cx     string   `json:"cx,omitempty"` // ctx form of the call: "" non-Ctx API, bg Background, live (cancelled at the end of the case), cancel (cancelled right after the call returned), dl (deadline 400 ms: gone before a retry is due)
+	Cx     string   `json:"cx,omitempty"` // ctx form of the call: "" non-Ctx API, bg Background, live (cancelled at the end of the case), cancel (cancelled right after the call returned), dl (deadline 400 ms: gone before a retry is due), pre (cancelled BEFORE the call), mid (deadline that passes while the Exec callback runs)
 	GF     bool     `json:"gf,omitempty"` // conc: all readers start together while GETs are slow and then fail
+	CB     string   `json:"cb,omitempty"` // read: what the database callback does if it is reached: dberr (returns a custom error), panic, nest (reads another row through the same connection)
+	SL     int      `json:"sl,omitempty"` // write: if > 0 the row's string field is SL bytes long (255 B .. 1 MiB), built from a pattern
+	Fill   int      `json:"fi,omitempty"` // delcache: that many additional cached keys are named in the same call (10 .. 1000)
 	Pay    int      `json:"py,omitempty"` // write: which payload (large integers, floats, strings needing escapes) the row carries
 	Keys   []string `json:"ks,omitempty"` // delcache/setcache: "p<id>" / "i<idx>"
 	D      int      `json:"d,omitempty"`  // adv: seconds
@@ -85,24 +93,45 @@ type hOp struct {
 // hInst: the options one CachedConn is created with. An option that is not
 // passed takes the documented default (7 days / 1 minute).
 type hInst struct {
-	HasE  bool `json:"he,omitempty"`
-	E     int  `json:"e,omitempty"` // seconds
-	HasNF bool `json:"hn,omitempty"`
-	NF    int  `json:"nf,omitempty"` // seconds
+	HasE  bool  `json:"he,omitempty"`
+	E     int   `json:"e,omitempty"`   // seconds
+	ENs   int64 `json:"ens,omitempty"` // if non-zero: the expiry in NANOseconds instead of E (1 ns .. MaxInt64, also <= 0)
+	HasNF bool  `json:"hn,omitempty"`
+	NF    int   `json:"nf,omitempty"`   // seconds
+	NFNs  int64 `json:"nfns,omitempty"` // same for the not-found expiry
+	Share bool  `json:"sh,omitempty"`   // created over the SAME *redis.Redis object as the previous instance (NewNodeConn constructors)
 }
 
-func (i hInst) expire() int {
-	if i.HasE {
-		return i.E
+const c06HundredYears = int64(100*365.25*24*3600) * 1e9
+
+// expireNs is the configured expiry in ns; judged is false where the statement
+// gives no bound to compare with: a value <= 0 (the code substitutes its
+// default) and values above 100 years (the +5 % jitter leaves the int64 range).
+func (i hInst) expireNs() (ns int64, judged bool) {
+	switch {
+	case !i.HasE:
+		return 7 * 24 * 3600 * 1e9, true
+	case i.ENs != 0:
+		return i.ENs, i.ENs > 0 && i.ENs <= c06HundredYears
 	}
-	return 7 * 24 * 3600
+	return int64(i.E) * 1e9, i.E > 0
 }
 
-func (i hInst) nfExpire() int {
-	if i.HasNF {
-		return i.NF
+func (i hInst) nfExpireNs() (ns int64, judged bool) {
+	switch {
+	case !i.HasNF:
+		return 60 * 1e9, true
+	case i.NFNs != 0:
+		return i.NFNs, i.NFNs > 0 && i.NFNs <= c06HundredYears
 	}
-	return 60
+	return int64(i.NF) * 1e9, i.NF > 0
+}
+
+func (i hInst) duration(ns int64, secs int) time.Duration {
+	if ns != 0 {
+		return time.Duration(ns)
+	}
+	return time.Duration(secs) * time.Second
 }
 
 type hCase struct {
@@ -114,6 +143,7 @@ type hCase struct {
 	PKKind  string   `json:"pkk,omitempty"` // "" / int: int64 primary keys (PKs), str: string primary keys (SPKs)
 	PKs     []int64  `json:"pk,omitempty"`  // primary key VALUE of each of the 6 rows (default 0..5)
 	SPKs    []string `json:"spk,omitempty"`
+	IdxNames []string `json:"ixn,omitempty"` // NAME of each of the 4 index values inside its cache key (default "0".."3"); "~L<n>": n bytes, "~X": bytes that are not UTF-8
 	Salt    int    `json:"salt"` // key name salt: varies the placement on the ring
 	OffMs   int    `json:"off"`  // operations happen OffMs after a tick of the clean wheel
 	Ops     []hOp  `json:"ops"`
@@ -150,6 +180,8 @@ func c06Payload(row *hRow, pay int) {
 	row.F = c06Fs[(pay/5)%len(c06Fs)]
 	row.S = c06Ss[(pay/7)%len(c06Ss)]
 }
+
+var c06Lens = []int{255, 256, 4095, 4097, 32768, 65535, 65537, 1 << 20}
 
 // pkText is the textual form of row id's primary key value ("" if none).
 func (r *hRun) pkText(id int) string {
@@ -195,6 +227,7 @@ type hRun struct {
 	srvs []*cache.C06Srv
 	ccs  []sqlc.CachedConn
 	cur  int // instance performing the running operation
+	idxNames []string
 	db   map[int]hRow
 	ver  int
 
@@ -217,6 +250,14 @@ type hRun struct {
 	lat       time.Duration
 
 	ctx     context.Context // ctx of the running operation (nil: the non-Ctx API is used)
+	ctxPre  bool            // that ctx was cancelled before the call
+	ctxMid  bool            // that ctx expires while the Exec callback runs
+	clientFails map[int]int // DELs that failed in the client with DeadlineExceeded (the circuit breaker counts them)
+	cbMode  string          // what the next reached primary callback does (dberr panic nest)
+	cbNest  int
+	cbFired bool
+	nestRow hRow
+	nestErr error
 	cancels []func()        // contexts that live until the end of the case
 	opLimit int64           // real-time limit of the running operation, ns
 	opStart int64 // real clock at the start of the running operation
@@ -229,7 +270,46 @@ type hRun struct {
 }
 
 func (r *hRun) pkey(id int) string  { return fmt.Sprintf("p%d:%s", r.c.Salt, r.pkText(id)) }
-func (r *hRun) ikey(idx int) string { return fmt.Sprintf("i%d:%d", r.c.Salt, idx) }
+func (r *hRun) ikey(idx int) string {
+	if idx >= 0 && idx < len(r.idxNames) {
+		return fmt.Sprintf("i%d:%s", r.c.Salt, r.idxNames[idx])
+	}
+	return fmt.Sprintf("i%d:%d", r.c.Salt, idx)
+}
+
+// c06Expand turns a name descriptor into the name ("~L70000" -> 70000 bytes).
+func c06Expand(d string) string {
+	var n int
+	switch {
+	case d == "~X":
+		return "\xff\xfe\xc0x"
+	case strings.HasPrefix(d, "~L"):
+		fmt.Sscanf(d[2:], "%d", &n)
+		if n > 1<<20 {
+			n = 1 << 20
+		}
+		return c06Long(n)
+	}
+	return d
+}
+
+// c06Long builds an n byte string with characters JSON has to escape.
+func c06Long(n int) string {
+	const pat = "long \"value\" \\ \n\t<é✓> %s %d "
+	return strings.Repeat(pat, n/len(pat)+1)[:n]
+}
+
+func short(s string) string {
+	if len(s) > 80 {
+		return fmt.Sprintf("%.40q...(%d bytes)", s, len(s))
+	}
+	return fmt.Sprintf("%q", s)
+}
+
+// String keeps failure messages readable when the payload is long.
+func (row hRow) String() string {
+	return fmt.Sprintf("{ID:%d PK:%d SPK:%s Idx:%d Val:%d Big:%d U:%d F:%v S:%s}", row.ID, row.PK, short(row.SPK), row.Idx, row.Val, row.Big, row.U, row.F, short(row.S))
+}
 
 func (r *hRun) failf(format string, a ...any) {
 	if r.fail == "" {
@@ -247,7 +327,22 @@ func (r *hRun) stall() {
 // called right after the library call returned.
 func (r *hRun) withCtx(kind string, write bool) (after func()) {
 	r.ctx, r.opLimit, after = nil, 2e9, func() {}
+	r.ctxPre, r.ctxMid = false, false
+	if (kind == "pre" && write || kind == "mid") && (len(r.srvs) > 1 || r.anyTaskAlive()) {
+		// the model of a delete that fails inside the client is kept to one node
+		kind = "cancel"
+	}
+	if kind == "mid" && (!write || r.srvs[0].Injected()+r.clientFails[0]+4 > c06MaxInjected) {
+		kind = "pre"
+	}
 	switch kind {
+	case "pre":
+		ctx, cancel := context.WithCancel(context.Background())
+		cancel()
+		r.ctx, r.ctxPre = ctx, true
+	case "mid":
+		ctx, cancel := context.WithTimeout(context.Background(), 300*time.Millisecond)
+		r.ctx, r.cancels, r.opLimit, r.ctxMid = ctx, append(r.cancels, cancel), 75e6, true
 	case "bg":
 		r.ctx = context.Background()
 	case "live":
@@ -272,10 +367,19 @@ func (r *hRun) withCtx(kind string, write bool) (after func()) {
 	return after
 }
 
-func ceilDiv(a, b int) int { return (a + b - 1) / b }
-
-// ttlBounds: ceil(0.95 e) .. ceil(1.05 e) seconds.
-func ttlBounds(e int) (lo, hi int) { return ceilDiv(e*95, 100), ceilDiv(e*105, 100) }
+// ttlBounds: ceil(0.95 e) .. ceil(1.05 e) whole seconds for an expiry of e ns.
+func ttlBounds(ens int64) (lo, hi int) {
+	f := func(pct int64) int {
+		x := new(big.Int).Mul(big.NewInt(ens), big.NewInt(pct))
+		d := big.NewInt(100 * 1e9)
+		q, m := new(big.Int).DivMod(x, d, new(big.Int))
+		if m.Sign() > 0 {
+			q.Add(q, big.NewInt(1))
+		}
+		return int(q.Int64())
+	}
+	return f(95), f(105)
+}
 
 func (r *hRun) nowTick() int { return int(time.Since(r.start) / time.Second) }
 
@@ -316,8 +420,23 @@ func (r *hRun) primaryQuery(id int, v any) error {
 	r.enter(key)
 	defer r.leave(key)
 	r.mu.Lock()
-	defer r.mu.Unlock()
 	r.priCalls[id]++
+	if mode := r.cbMode; mode != "" && !r.cbFired {
+		r.cbFired = true
+		nest := r.cbNest
+		r.mu.Unlock()
+		switch mode {
+		case "dberr":
+			return errC06DB{"c06 database failure"}
+		case "panic":
+			panic(errC06DB{"c06 callback panic"})
+		case "nest":
+			// re-entrancy: another row through the same connection from inside the callback
+			r.nestRow, r.nestErr = r.queryRow(nest)
+		}
+		r.mu.Lock()
+	}
+	defer r.mu.Unlock()
 	row, ok := r.db[id]
 	if !ok || id < 0 {
 		return sqlc.ErrNotFound
@@ -325,6 +444,10 @@ func (r *hRun) primaryQuery(id int, v any) error {
 	*v.(*hRow) = row
 	return nil
 }
+
+type errC06DB struct{ msg string }
+
+func (e errC06DB) Error() string { return e.msg }
 
 func (r *hRun) indexQuery(idx int, v any) (any, error) {
 	key := r.ikey(idx)
@@ -406,17 +529,30 @@ func (r *hRun) absorb(fromIndexRead, background bool) (b hBatch, dels []string) 
 				b.sets++
 				k := e.Keys[0]
 				// judged by the configuration of the instance that issued it
-				exp := r.c.Insts[r.cur].expire()
+				exp, judged := r.c.Insts[r.cur].expireNs()
 				if e.Val == "*" {
-					exp = r.c.Insts[r.cur].nfExpire()
+					exp, judged = r.c.Insts[r.cur].nfExpireNs()
 				}
-				lo, hi := ttlBounds(exp)
-				if fromIndexRead && e.Val != "*" && strings.HasPrefix(k, "p") {
-					hi += 5 // index path: the primary row outlives the index entry by the 5 s gap
-					r.classes["ttl-index-gap"] = true
+				if judged {
+					lo, hi := ttlBounds(exp)
+					if fromIndexRead && e.Val != "*" && strings.HasPrefix(k, "p") {
+						hi += 5 // index path: the primary row outlives the index entry by the 5 s gap
+						r.classes["ttl-index-gap"] = true
+					}
+					if e.Secs < lo || e.Secs > hi {
+						r.failf("TTL: SET %q EX %d (value %.40q): configured expiry %v, want %d..%d s", k, e.Secs, e.Val, time.Duration(exp), lo, hi)
+					}
+					if exp%1e9 != 0 {
+						r.classes["ttl-expiry-not-whole-seconds"] = true
+					}
+					if exp > 30*24*3600*1e9 {
+						r.classes["ttl-expiry-over-30-days"] = true
+					}
+				} else {
+					r.classes["ttl-unspecified-expiry"] = true
 				}
-				if e.Secs < lo || e.Secs > hi {
-					r.failf("TTL: SETEX %s %d %q: configured expiry %d s, want %d..%d s", k, e.Secs, e.Val, exp, lo, hi)
+				if e.Secs <= 0 {
+					continue // refused by the server: nothing stored
 				}
 				if e.Val == "*" {
 					r.ph[k] = r.serverNow + e.Secs
@@ -452,6 +588,14 @@ func (r *hRun) absorb(fromIndexRead, background bool) (b hBatch, dels []string) 
 	return
 }
 
+// storeSpecified: both expiries of the instance in charge are values for which
+// the statement says what is stored (see hInst.expireNs).
+func (r *hRun) storeSpecified() bool {
+	_, a := r.c.Insts[r.cur].expireNs()
+	_, b := r.c.Insts[r.cur].nfExpireNs()
+	return a && b
+}
+
 func (r *hRun) phAlive(k string) bool     { return r.ph[k] > r.serverNow }
 func (r *hRun) cachedAlive(k string) bool { return r.cached[k] > r.serverNow }
 
@@ -481,11 +625,76 @@ func (r *hRun) doRead(what string, id int) {
 	key := r.pkey(id)
 	phAlive, wasDirty, wasInvalid := r.phAlive(key), r.dirty[key], r.invalid[key]
 	r.resetCalls()
-	got, err := r.queryRow(id)
+	var got hRow
+	var err error
+	var panicked any
+	func() {
+		defer func() {
+			if r.cbMode == "panic" {
+				panicked = recover()
+			}
+		}()
+		got, err = r.queryRow(id)
+	}()
+	cb, fired, nest := r.cbMode, r.cbFired, r.cbNest
+	r.cbMode, r.cbFired = "", false
 	b, _ := r.absorb(false, false)
 	calls := r.priCalls[id]
 	want, exists := r.db[id]
+	if fired {
+		r.classes["callback-"+cb] = true
+		switch cb {
+		case "dberr":
+			// the statement does not say what a failing database yields; it must
+			// not be a row that differs from the database, nor "not found" for a
+			// row that exists, and nothing wrong may stay cached (later reads)
+			if !isCacheErr(err) && !wasDirty {
+				r.checkRow(what+" (database callback failed)", got, err, want, exists)
+			}
+			return
+		case "panic":
+			if panicked == nil && err == nil && !wasDirty {
+				r.checkRow(what+" (database callback panicked)", got, err, want, exists)
+			}
+			// the key must not be stuck: an ordinary read right away (the clean
+			// wheel keeps virtual time moving, so a stuck read is detected by a
+			// virtual time-out, not by the bubble's deadlock detection)
+			done := make(chan struct{})
+			go func() {
+				defer close(done)
+				r.doRead(what+" (read after the callback panicked)", id)
+			}()
+			tm := time.NewTimer(10 * time.Second)
+			select {
+			case <-done:
+				tm.Stop()
+			case <-tm.C:
+				r.failf("%s: the database callback panicked; the next read of %s is still blocked 10 s later", what, key)
+				// sqlc's single-flight group is process-wide: the stuck entry would
+				// wedge every later case that uses the same key name
+				c06FlightStuck = true
+			}
+			return
+		case "nest":
+			nk := r.pkey(nest)
+			nwant, nexists := r.db[nest]
+			if !r.dirty[nk] {
+				r.checkRow(what+fmt.Sprintf(" (nested read of row %d inside the callback)", nest), r.nestRow, r.nestErr, nwant, nexists)
+			}
+		}
+	}
 	switch {
+	case r.ctxPre:
+		// the caller's context is cancelled already: the cache lookup fails
+		// (not a miss) and must not fall through to the database
+		r.classes["read-ctx-already-cancelled"] = true
+		if !isCacheErr(err) {
+			r.failf("%s: the context was cancelled before the call, the read returned (%v, %v)", what, got, err)
+		}
+		if calls != 0 {
+			r.failf("%s: the context was cancelled before the call (cache lookup failed) and the database was queried %d time(s)", what, calls)
+		}
+		return
 	case b.getFailed[key]:
 		r.classes["read-get-fault"] = true
 		if !isCacheErr(err) {
@@ -530,10 +739,10 @@ func (r *hRun) doRead(what string, id int) {
 	}
 	if calls > 0 {
 		r.classes["read-miss"] = true
-		if exists && !r.cachedAlive(key) && !c06NoAux {
+		if exists && !r.cachedAlive(key) && !c06NoAux && r.storeSpecified() {
 			r.failf("%s: the row was read from the database but not stored under %s", what, key)
 		}
-		if !exists && !r.phAlive(key) && !c06NoAux {
+		if !exists && !r.phAlive(key) && !c06NoAux && r.storeSpecified() {
 			r.failf("%s: not found in the database but no placeholder stored under %s", what, key)
 		}
 	} else if exists {
@@ -563,6 +772,16 @@ func (r *hRun) doReadIndex(what string, idx int) {
 		pcalls += n
 	}
 	anyGetFailed := len(b.getFailed) > 0
+	if r.ctxPre {
+		r.classes["read-ctx-already-cancelled"] = true
+		if !isCacheErr(err) {
+			r.failf("%s: the context was cancelled before the call, the read returned (%v, %v)", what, got, err)
+		}
+		if icalls+pcalls != 0 {
+			r.failf("%s: the context was cancelled before the call (cache lookup failed) and the database was queried", what)
+		}
+		return
+	}
 	if n := r.priCalls[-1]; n > 0 && !wasDirty {
 		r.failf("%s: the primary query was called %d time(s) with a primary key the database never returned for this index value", what, n)
 	}
@@ -633,10 +852,10 @@ func (r *hRun) doReadIndex(what string, idx int) {
 	switch {
 	case icalls > 0:
 		r.classes["readidx-miss"] = true
-		if exists && (!r.cachedAlive(ik) || !r.cachedAlive(pk)) && !c06NoAux {
+		if exists && (!r.cachedAlive(ik) || !r.cachedAlive(pk)) && !c06NoAux && r.storeSpecified() {
 			r.failf("%s: index and row were read from the database but not both stored (%s, %s)", what, ik, pk)
 		}
-		if !exists && !r.phAlive(ik) && !c06NoAux {
+		if !exists && !r.phAlive(ik) && !c06NoAux && r.storeSpecified() {
 			r.failf("%s: not found in the database but no placeholder stored under %s", what, ik)
 		}
 	case pcalls > 0:
@@ -650,7 +869,7 @@ func (r *hRun) doReadIndex(what string, idx int) {
 // injected failures the circuit breaker of its redis client tolerates.
 func (r *hRun) budget(worst func(si int) int) {
 	for si, s := range r.srvs {
-		if s.Fault() != "" && s.Injected()+worst(si) > c06MaxInjected {
+		if s.Fault() != "" && s.Injected()+r.clientFails[si]+worst(si) > c06MaxInjected {
 			s.SetFault("", "")
 			r.classes["fault-budget-exhausted"] = true
 		}
@@ -662,7 +881,7 @@ func (r *hRun) namedKeysGone(what string, keys []string) {
 	nodes := map[int]bool{}
 	for _, k := range keys {
 		for si, s := range r.srvs {
-			if s.M.Exists(k) && !c06NoAux {
+			if s.M.Exists(k) && !c06NoAux && r.storeSpecified() {
 				r.failf("%s: key %s still exists on node %d after the delete returned", what, k, si)
 			}
 		}
@@ -723,6 +942,9 @@ func (r *hRun) doWrite(what string, o hOp, del bool) {
 				r.markInvalidated(keys[:1])
 			}
 		}
+		if r.ctxMid {
+			time.Sleep(400 * time.Millisecond) // the 300 ms deadline passes while the database works
+		}
 		r.mu.Lock()
 		if del {
 			delete(r.db, o.ID)
@@ -735,6 +957,10 @@ func (r *hRun) doWrite(what string, o hOp, del bool) {
 				row.PK = r.c.PKs[o.ID]
 			}
 			c06Payload(&row, o.Pay)
+			if o.SL > 0 {
+				row.S = c06Long(c06Lens[o.SL%len(c06Lens)])
+				r.classes[fmt.Sprintf("row-string-%d-bytes", len(row.S))] = true
+			}
 			r.db[o.ID] = row
 		}
 		r.mu.Unlock()
@@ -746,13 +972,45 @@ func (r *hRun) doWrite(what string, o hOp, del bool) {
 	} else {
 		_, err = r.ccs[r.cur].Exec(body, keys...)
 	}
-	b, _ := r.absorb(false, false)
+	b, dels := r.absorb(false, false)
 	if err != nil {
 		r.failf("%s: Exec returned %v", what, err)
+	}
+	if (r.ctxPre || r.ctxMid) && len(dels) == 0 {
+		r.clientDelFailed(keys)
+		return
 	}
 	if !b.delFailed {
 		r.namedKeysGone(what, keys)
 	}
+}
+
+// clientDelFailed: the delete failed inside the client (context cancelled or
+// past its deadline: nothing was sent). By the statement it is a failed removal
+// like any other: retried from the next tick on, with a context of its own.
+func (r *hRun) clientDelFailed(keys []string) {
+	if len(keys) == 0 {
+		return
+	}
+	groups := [][]string{keys}
+	if r.c.Ctor == "ctype" && len(keys) > 1 {
+		groups = nil
+		for _, k := range keys {
+			groups = append(groups, []string{k})
+		}
+	}
+	for _, g := range groups {
+		for _, k := range g {
+			r.dirty[k] = true
+		}
+		for _, l := range []*[]*hTask{&r.tasksF, &r.tasksI} {
+			*l = append(*l, &hTask{srv: 0, keys: g, k: 0, nextAt: r.nowTick() + cache.C06Delays[0], alive: true})
+		}
+		if r.ctxMid {
+			r.clientFails[0]++
+		}
+	}
+	r.classes["del-failed-in-client-ctx"] = true
 }
 
 func (r *hRun) resolveKeys(ks []string) (keys []string) {
@@ -775,8 +1033,30 @@ func (r *hRun) resolveKeys(ks []string) (keys []string) {
 func (r *hRun) doDelCache(what string, o hOp) {
 	keys := r.resolveKeys(o.Keys)
 	if len(keys) == 0 {
-		r.classes["skipped"] = true
-		return
+		r.classes["delcache-zero-keys"] = true
+	}
+	if o.Fill > 0 && !r.anyTaskAlive() {
+		// many keys in one call: they are cached first (through the API) so that
+		// the delete has something to remove on whichever node holds them
+		quiet := true
+		for _, s := range r.srvs {
+			quiet = quiet && s.Fault() == ""
+		}
+		if quiet {
+			n := o.Fill
+			if n > 1000 {
+				n = 1000
+			}
+			for j := 0; j < n; j++ {
+				k := fmt.Sprintf("p%d:~fill%d", r.c.Salt, j)
+				if err := r.ccs[r.cur].SetCache(k, j); err != nil {
+					r.failf("%s: SetCache(%s) returned %v", what, k, err)
+				}
+				keys = append(keys, k)
+			}
+			r.absorb(false, false)
+			r.classes[fmt.Sprintf("delcache-%d-keys", len(keys)/100*100)] = true
+		}
 	}
 	var err error
 	if ctx := r.ctx; ctx != nil {
@@ -784,9 +1064,16 @@ func (r *hRun) doDelCache(what string, o hOp) {
 	} else {
 		err = r.ccs[r.cur].DelCache(keys...)
 	}
-	b, _ := r.absorb(false, false)
+	b, dels := r.absorb(false, false)
 	if err != nil {
 		r.failf("%s: DelCache returned %v", what, err)
+	}
+	if len(keys) == 0 && len(dels) > 0 {
+		r.failf("%s: DelCache() without keys sent %v", what, dels)
+	}
+	if r.ctxPre && len(dels) == 0 {
+		r.clientDelFailed(keys)
+		return
 	}
 	if !b.delFailed {
 		r.namedKeysGone(what, keys)
@@ -832,7 +1119,7 @@ func (r *hRun) doSetCache(what string, o hOp) {
 		}
 		b, _ := r.absorb(false, false)
 		r.classes["setcache"] = true
-		if err != nil && !b.setFailed {
+		if err != nil && !b.setFailed && !r.ctxPre {
 			r.failf("%s: SetCache returned %v", what, err)
 		}
 	}
@@ -1055,7 +1342,7 @@ func (r *hRun) doConc(what string, o hOp) {
 	if maxActive > 1 {
 		r.failf("%s: %d database queries for %s ran at the same time (%d readers)", what, maxActive, key, len(o.Offs))
 	}
-	if calls > 1 {
+	if calls > 1 && r.storeSpecified() {
 		r.failf("%s: %d readers of %s caused %d database queries (the first result is cached or remembered as not found)", what, len(o.Offs), key, calls)
 	}
 	if !wasDirty {
@@ -1077,10 +1364,25 @@ func (r *hRun) doConc(what string, o hOp) {
 func c06HistInterp(t *testing.T, c hCase) (v kit.Verdict) {
 	r := &hRun{t: t, c: c, db: map[int]hRow{}, ph: map[string]int{}, cached: map[string]int{}, dirty: map[string]bool{},
 		keyNode: map[string]int{}, invalid: map[string]bool{}, priCalls: map[int]int{}, idxCalls: map[int]int{},
-		active: map[string]int{}, classes: map[string]bool{}, opLimit: 2e9}
+		active: map[string]int{}, classes: map[string]bool{}, opLimit: 2e9, clientFails: map[int]int{}}
 	if c.PKKind == "" && len(c.PKs) == 0 {
 		c.PKs = []int64{0, 1, 2, 3, 4, 5}
 		r.c = c
+	}
+	if len(c.IdxNames) > 0 {
+		if len(c.IdxNames) != c06NIdx {
+			return kit.Verdict{Excluded: true}
+		}
+		seenN := map[string]bool{}
+		for _, d := range c.IdxNames {
+			name := c06Expand(d)
+			if seenN[name] {
+				return kit.Verdict{Excluded: true}
+			}
+			seenN[name] = true
+			r.idxNames = append(r.idxNames, name)
+		}
+		r.classes["index-key-names-from-alphabet"] = true
 	}
 	seen := map[string]bool{}
 	for id := 0; id < c06NIDs; id++ {
@@ -1098,9 +1400,12 @@ func c06HistInterp(t *testing.T, c hCase) (v kit.Verdict) {
 		return kit.Verdict{Excluded: true}
 	}
 	for _, in := range c.Insts {
-		if (in.HasE && in.E < 1) || (in.HasNF && in.NF < 1) {
+		if (in.HasE && in.ENs == 0 && in.E < 1) || (in.HasNF && in.NFNs == 0 && in.NF < 1) {
 			return kit.Verdict{Excluded: true}
 		}
+	}
+	if c06FlightStuck {
+		return kit.Verdict{Excluded: true, Classes: []string{"excluded-after-a-stuck-single-flight"}}
 	}
 	if cache.C06Poisoned(c.Salt) {
 		// a late command of a stalled earlier case could hit this case's keys
@@ -1135,13 +1440,14 @@ func c06HistInterp(t *testing.T, c hCase) (v kit.Verdict) {
 		for i, w := range c.Weights {
 			conf = append(conf, cache.NodeConfig{Config: redis.Config{Host: r.srvs[i].M.Addr(), Type: redis.NodeType}, Weight: w})
 		}
+		var lastRds *redis.Redis
 		for ii, in := range c.Insts {
 			var opts []cache.Option
 			if in.HasE {
-				opts = append(opts, cache.WithExpire(time.Duration(in.E)*time.Second))
+				opts = append(opts, cache.WithExpire(in.duration(in.ENs, in.E)))
 			}
 			if in.HasNF {
-				opts = append(opts, cache.WithNotFoundExpire(time.Duration(in.NF)*time.Second))
+				opts = append(opts, cache.WithNotFoundExpire(in.duration(in.NFNs, in.NF)))
 			}
 			if !in.HasE || !in.HasNF {
 				r.classes["default-expiry-option-omitted"] = true
@@ -1149,13 +1455,22 @@ func c06HistInterp(t *testing.T, c hCase) (v kit.Verdict) {
 					r.classes["defaults-after-earlier-instance-with-options"] = true
 				}
 			}
-			if n == 1 && c.Ctor == "ctype" {
-				// cluster-type redis (go-redis ClusterClient against miniredis' CLUSTER SLOTS):
-				// node.DelCtx deletes key by key and retries each failed key on its own
-				r.ccs = append(r.ccs, sqlc.NewNodeConn(nil, redis.New(r.srvs[0].M.Addr(), redis.WithCluster()), opts...))
-				r.classes["redis-cluster-type"] = true
-			} else if n == 1 && c.Ctor == "node" {
-				r.ccs = append(r.ccs, sqlc.NewNodeConn(nil, redis.New(r.srvs[0].M.Addr()), opts...))
+			if n == 1 && (c.Ctor == "ctype" || c.Ctor == "node") {
+				// ctype: cluster-type redis (go-redis ClusterClient against miniredis' CLUSTER
+				// SLOTS): node.DelCtx deletes key by key and retries each failed key on its own
+				if !(in.Share && lastRds != nil) {
+					if c.Ctor == "ctype" {
+						lastRds = redis.New(r.srvs[0].M.Addr(), redis.WithCluster())
+					} else {
+						lastRds = redis.New(r.srvs[0].M.Addr())
+					}
+				} else {
+					r.classes["instances-share-redis-object"] = true
+				}
+				if c.Ctor == "ctype" {
+					r.classes["redis-cluster-type"] = true
+				}
+				r.ccs = append(r.ccs, sqlc.NewNodeConn(nil, lastRds, opts...))
 			} else {
 				r.ccs = append(r.ccs, sqlc.NewConn(nil, conf, opts...))
 			}
@@ -1196,7 +1511,31 @@ func c06HistInterp(t *testing.T, c hCase) (v kit.Verdict) {
 			}
 			switch o.K {
 			case "read":
+				if o.CB != "" {
+					quiet := true
+					for _, s := range r.srvs {
+						quiet = quiet && s.Fault() == ""
+					}
+					if nest := (o.ID + 1 + o.Idx) % c06NIDs; quiet && !r.ctxPre && (o.CB != "nest" || nest != o.ID%c06NIDs) {
+						r.cbMode, r.cbNest, r.cbFired = o.CB, nest, false
+					}
+				}
 				r.doRead(what, o.ID%c06NIDs)
+				r.cbMode = ""
+			case "churn":
+				// a long-lived connection: thousands of cheap reads with whatever is
+				// pending (retries, placeholders, cached rows) staying in place
+				quiet := true
+				for _, s := range r.srvs {
+					quiet = quiet && s.Fault() == ""
+				}
+				for j := 0; quiet && j < o.D && j < 20000 && r.fail == ""; j++ {
+					r.doRead(fmt.Sprintf("%s read %d", what, j), j%c06NIDs)
+					r.opStart = cache.C06RealNow()
+				}
+				if quiet {
+					r.classes["churn"] = true
+				}
 			case "readidx":
 				r.doReadIndex(what, o.Idx%c06NIdx)
 			case "write":
@@ -1227,7 +1566,7 @@ func c06HistInterp(t *testing.T, c hCase) (v kit.Verdict) {
 			}
 			after()
 			r.stall()
-			r.ctx, r.opLimit = nil, 2e9
+			r.ctx, r.opLimit, r.ctxPre, r.ctxMid = nil, 2e9, false, false
 			if r.fail != "" {
 				return
 			}
@@ -1329,11 +1668,31 @@ func c06HistGen(rt *rapid.T) hCase {
 		in := hInst{HasE: rapid.IntRange(0, 3).Draw(rt, "hasexpire") != 0, HasNF: rapid.IntRange(0, 3).Draw(rt, "hasnfexpire") != 0}
 		if in.HasE {
 			in.E = rapid.IntRange(5, 120).Draw(rt, "expire")
+			if rapid.IntRange(0, 3).Draw(rt, "oddexpire") == 0 {
+				// magnitudes: sub-second, not whole seconds, the defaults +-1 ns, hours .. 100 years, out of range
+				in.ENs = rapid.SampledFrom([]int64{1, 1e6, 999e6, 1e9, 1e9 + 1, 1001e6, 1500e6, 1 << 31, 2500e6, 60e9 - 1, 60e9 + 1, 3600e9,
+					7*24*3600e9 - 1, 7*24*3600e9 + 1, 30 * 24 * 3600e9, c06HundredYears, math.MaxInt64, -1}).Draw(rt, "expirens")
+			}
 		}
 		if in.HasNF {
 			in.NF = rapid.IntRange(2, 40).Draw(rt, "nfexpire")
+			if rapid.IntRange(0, 3).Draw(rt, "oddnfexpire") == 0 {
+				in.NFNs = rapid.SampledFrom([]int64{1, 1e6, 999e6, 1e9, 1e9 + 1, 1500e6, 1 << 31, 60e9 - 1, 60e9 + 1, 3600e9, 30 * 24 * 3600e9,
+					c06HundredYears, math.MaxInt64, -1}).Draw(rt, "nfexpirens")
+			}
+		}
+		if i > 0 {
+			in.Share = rapid.IntRange(0, 2).Draw(rt, "sharerds") == 0
 		}
 		c.Insts = append(c.Insts, in)
+	}
+	// names of the index values inside their cache keys: format verbs, glob / regexp
+	// metacharacters, NUL, bytes that are not UTF-8, cluster hash tags, empty, long
+	if rapid.IntRange(0, 2).Draw(rt, "idxnames") == 0 {
+		pool := []string{"0", "1", "", "%s", "%d%!v", "*", "a*b?[c]", "sp ace", "tab\tx", "nul\x00x", "~X", "{tag}x", "{}", "日本", "UPPER", "upper", ":lead", "trail:", "a,b|c", "~L300", "~L70000"}
+		for _, i := range rapid.SliceOfNDistinct(rapid.IntRange(0, len(pool)-1), c06NIdx, c06NIdx, rapid.ID[int]).Draw(rt, "ixn") {
+			c.IdxNames = append(c.IdxNames, pool[i])
+		}
 	}
 	nn := rapid.SampledFrom([]int{1, 1, 2, 3}).Draw(rt, "nodes")
 	for i := 0; i < nn; i++ {
@@ -1341,10 +1700,12 @@ func c06HistGen(rt *rapid.T) hCase {
 	}
 	advs := []int{1, 1, 1, 2, 4, 5, 6, 60, 66, 300, 3600}
 	for _, in := range c.Insts {
-		lon, hin := ttlBounds(in.nfExpire())
-		advs = append(advs, lon-1, lon, hin, hin+1)
-		if in.HasE {
-			loe, hie := ttlBounds(in.E)
+		if ns, ok := in.nfExpireNs(); ok && ns < 4000e9 {
+			lon, hin := ttlBounds(ns)
+			advs = append(advs, lon-1, lon, hin, hin+1)
+		}
+		if ns, ok := in.expireNs(); ok && in.HasE && ns < 4000e9 {
+			loe, hie := ttlBounds(ns)
 			advs = append(advs, loe-1, loe, hie, hie+1, hie+5, hie+6)
 		}
 	}
@@ -1368,6 +1729,10 @@ func c06HistGen(rt *rapid.T) hCase {
 		"delrow", "delcache", "setcache", "adv", "adv", "adv", "conc", "fault", "fault", "idxstale"}
 	nops := rapid.IntRange(5, 40).Draw(rt, "nops")
 	faulty := false
+	churnAt := -1
+	if rapid.IntRange(0, 79).Draw(rt, "churncase") == 41 {
+		churnAt = rapid.IntRange(0, nops-1).Draw(rt, "churnat")
+	}
 	existing := func() []int {
 		var ids []int
 		for id := range rows {
@@ -1400,7 +1765,14 @@ func c06HistGen(rt *rapid.T) hCase {
 		}
 		switch k {
 		case "read", "readidx", "write", "delrow", "delcache", "setcache", "idxstale":
-			o.Cx = rapid.SampledFrom([]string{"", "", "bg", "live", "cancel", "cancel", "dl"}).Draw(rt, "ctx")
+			o.Cx = rapid.SampledFrom([]string{"", "", "", "bg", "live", "cancel", "cancel", "dl", "pre", "mid"}).Draw(rt, "ctx")
+		}
+		if k == "read" && rapid.IntRange(0, 5).Draw(rt, "callback") == 0 {
+			o.CB = rapid.SampledFrom([]string{"dberr", "panic", "nest"}).Draw(rt, "cb")
+			o.Idx = rapid.IntRange(0, c06NIDs-2).Draw(rt, "nestoffset")
+		}
+		if churnAt == i {
+			c.Ops = append(c.Ops, hOp{K: "churn", D: rapid.SampledFrom([]int{300, 1100, 1100, 2500}).Draw(rt, "churn")})
 		}
 		switch k {
 		case "read":
@@ -1422,6 +1794,10 @@ func c06HistGen(rt *rapid.T) hCase {
 			}
 			o.During = rapid.IntRange(0, 3).Draw(rt, "during") == 0
 			o.Pay = rapid.IntRange(0, 349).Draw(rt, "payload")
+			if rapid.IntRange(0, 11).Draw(rt, "longstring") == 0 {
+				// index into c06Lens (8 wraps to 255 B); 7 = 1 MiB is kept rare, it costs milliseconds per read
+				o.SL = rapid.SampledFrom([]int{8, 8, 1, 1, 2, 2, 3, 3, 4, 4, 5, 5, 6, 6, 8, 1, 2, 3, 5, 7}).Draw(rt, "sl")
+			}
 			rows[o.ID] = o.Idx
 		case "idxstale":
 			// index entry cached, row rewritten without naming the (unchanged) index key, index read
@@ -1447,6 +1823,14 @@ func c06HistGen(rt *rapid.T) hCase {
 			delete(rows, o.ID)
 		case "delcache", "setcache":
 			nk := rapid.IntRange(1, 3).Draw(rt, "nkeys")
+			if k == "delcache" {
+				switch rapid.IntRange(0, 23).Draw(rt, "shape") {
+				case 0, 1:
+					nk = 0 // DelCache() with no key at all
+				case 2:
+					o.Fill = rapid.SampledFrom([]int{10, 10, 100, 100, 513, 1000}).Draw(rt, "fill")
+				}
+			}
 			for j := 0; j < nk; j++ {
 				if rapid.Bool().Draw(rt, "primary") {
 					o.Keys = append(o.Keys, fmt.Sprintf("p%d", pickID()))
@@ -1495,6 +1879,6 @@ func c06HistGen(rt *rapid.T) hCase {
 }
 
 func TestVerif_C06_history(t *testing.T) {
-	kit.Run(t, "C06", "history", kit.Opts{Quick: 2400, Thorough: 160000}, c06HistGen,
+	kit.Run(t, "C06", "history", kit.Opts{Quick: 2000, Thorough: 160000}, c06HistGen,
 		func(c hCase) kit.Verdict { return c06HistInterp(t, c) })
 }
